@@ -115,6 +115,78 @@ def _ctor_params(repo, rel, cname):
     return out
 
 
+def _remembers_tables(tree):
+    """which test guards the "Found more than one <table>" error of parse_ods:
+    False = the transaction set of that type is non-empty (a repeated table after an EMPTY table of the type goes unnoticed),
+    True  = the table type is in a set of the types seen so far, filled at every table begin and never emptied."""
+    fn = None
+    for n in tree.body:
+        if isinstance(n, ast.FunctionDef) and n.name == "parse_ods":
+            fn = n
+    if fn is None:
+        raise Unrecognised("parse_ods not found")
+    loop = [n for n in fn.body if isinstance(n, ast.For) and ast.unparse(n.iter) == "enumerate(input_sheet.rows())"]
+    if len(loop) != 1:
+        raise Unrecognised("parse_ods: row loop")
+    begin = None
+    for st in loop[0].body:
+        if isinstance(st, ast.If) and ast.unparse(st.test) == "_is_table_begin(cell0_value)":
+            begin = st
+    if begin is None:
+        raise Unrecognised("parse_ods: table-begin branch")
+    body = [ast.unparse(x) for x in begin.body]
+    if body[:2] != ["current_table_row_count = 0", "current_table_type = _get_entry_set_type(cell0_value)"] or len(body) not in (3, 4):
+        raise Unrecognised("parse_ods: table-begin statements")
+
+    def is_raise(stmts):
+        return (len(stmts) == 1 and isinstance(stmts[0], ast.Raise) and "Found more than one" in ast.unparse(stmts[0])
+                and ast.unparse(stmts[0]).startswith("raise RP2ValueError("))
+    tail = begin.body[2:]
+    guard = tail[0]
+    if not isinstance(guard, ast.If) or guard.orelse:
+        raise Unrecognised("parse_ods: repeated-table guard")
+    test = ast.unparse(guard.test)
+    if len(tail) == 1 and test == "current_table_type and (not unfiltered_transaction_sets[current_table_type].is_empty())" and is_raise(guard.body):
+        return False
+    # patched shapes: [if current_table_type:] if current_table_type in <seen>: raise ... ; <seen>.add(current_table_type)
+    if len(tail) == 1 and test == "current_table_type":
+        rest = guard.body
+    elif len(tail) == 2:
+        rest = tail
+    else:
+        raise Unrecognised("parse_ods: repeated-table guard test")
+    if len(rest) != 2 or not isinstance(rest[0], ast.If) or rest[0].orelse or not is_raise(rest[0].body):
+        raise Unrecognised("parse_ods: repeated-table guard body")
+    t = rest[0].test
+    if not (isinstance(t, ast.Compare) and len(t.ops) == 1 and isinstance(t.ops[0], ast.In) and ast.unparse(t.left) == "current_table_type"
+            and isinstance(t.comparators[0], ast.Name)):
+        raise Unrecognised("parse_ods: membership test")
+    seen = t.comparators[0].id
+    if ast.unparse(rest[1]) != f"{seen}.add(current_table_type)":
+        raise Unrecognised("parse_ods: the seen set is not filled at the table begin")
+    # initialised empty before the loop, never touched anywhere else
+    inits, others = 0, 0
+    for n in ast.walk(fn):
+        if isinstance(n, (ast.Assign, ast.AnnAssign, ast.AugAssign)):
+            tg = n.targets[0] if isinstance(n, ast.Assign) else n.target
+            if isinstance(tg, ast.Name) and tg.id == seen:
+                if isinstance(n, ast.AnnAssign) and n in fn.body and n.value is not None and ast.unparse(n.value) == "set()":
+                    inits += 1
+                elif isinstance(n, ast.Assign) and n in fn.body and ast.unparse(n.value) == "set()":
+                    inits += 1
+                else:
+                    others += 1
+        if isinstance(n, ast.Attribute) and isinstance(n.value, ast.Name) and n.value.id == seen and n.attr != "add":
+            others += 1
+        if isinstance(n, ast.Call) and isinstance(n.func, ast.Attribute) and isinstance(n.func.value, ast.Name) and n.func.value.id == seen \
+                and n.func.attr == "add" and ast.unparse(n) != f"{seen}.add(current_table_type)":
+            others += 1
+    n_add = sum(1 for n in ast.walk(fn) if isinstance(n, ast.Call) and ast.unparse(n) == f"{seen}.add(current_table_type)")
+    if inits != 1 or others != 0 or n_add != 1:
+        raise Unrecognised("parse_ods: the seen set is modified elsewhere")
+    return True
+
+
 def frag_parser(repo):
     ods = _parse(repo, "ods_parser.py")
     decimals = _fmt_decimals(ods)
@@ -146,7 +218,9 @@ def frag_parser(repo):
     tables = [("in", "in_header", "in_transaction.py", "InTransaction"),
               ("out", "out_header", "out_transaction.py", "OutTransaction"),
               ("intra", "intra_header", "intra_transaction.py", "IntraTransaction")]
+    remembers = _remembers_tables(ods)
     s = f"Definition gen_fmt_decimals : Z := {decimals}.\n"
+    s += f"Definition gen_parser_remembers_tables : bool := {'true' if remembers else 'false'}.\n"
     s += f"Definition gen_table_end : str := {_codes(tend.value)}.\n"
     for k in ("IN", "OUT", "INTRA"):
         s += f"Definition gen_kw_{k.lower()} : str := {_codes(ev[k])}.\n"
